@@ -74,6 +74,12 @@ def o141(ctx):
         if not (via_buffer or via_result):
             ctx.finding(q, "returned array", "rotate must return the array affine_transform writes into (an np.empty buffer may only "
                         "be returned after it has been filled)", fn, m)
+        elif via_result and out is None and not tm.contains(to_term(inp), lambda n: n.op in ("float",) or (n.op == "call" and str(n.args[0]) in (".astype", "numpy.asarray", "cast"))):
+            # without output= the library creates the result with the *input's* element type: the interpolated values of an integer map
+            # (a binary template, a label volume) are rounded back to integers
+            ctx.finding(q, ev.node, "affine_transform is called without output=: the result then has the element type of the input map, so the "
+                        "interpolated values of an integer map (a 0/1 template, a label volume) are rounded to integers -- the rotated map is no "
+                        "longer the interpolated density (pass a float buffer / dtype as output, or convert the map first)", ev.node, m)
         order = ev.kwargs.get("order")
         ctx.count(1)
         if order is None or not (is_pyconst(order) and pyval(order) == 3):
@@ -279,6 +285,17 @@ def o145(ctx):
         vol = Unk(sym("volume"))
         vol.rank = 3
         r2 = it.run(q2, [vol, coord, S], {"enforce_shape": K(enforce)})
+        # the window is the one place_object stamps into: the shared helper receives the requested centre as given (it floors c - N/2 itself)
+        wins_ = [e for e in it.events if e.kind == "call" and e.name == "cryocat.cryomap.get_start_end_indices" and e.fn == q2]
+        if len(wins_) != 1:
+            raise Unsupported("extract_subvolume: call of get_start_end_indices not recognised", fn2)
+        c_arg = wins_[0].arg(0)
+        ctx.count(1, {"window centre handed to get_start_end_indices": tm.show(to_term(c_arg))[:100] if c_arg is not None else None})
+        if c_arg is None or to_term(c_arg) != to_term(coord):
+            ctx.finding(q2, wins_[0].node, "extract_subvolume changes the requested centre before the window is computed "
+                        f"({tm.show(to_term(c_arg))[:80] if c_arg is not None else None}): the window must be the one get_start_end_indices gives for "
+                        "the centre as requested (floor(c - N/2) ...), the same one place_object stamps into; a rounded / shifted centre moves the "
+                        "box by a voxel for fractional positions", wins_[0].node, m2)
         fulls = [e for e in it.events if e.kind == "call" and e.name == "numpy.full"]
         # the other way of producing the out-of-volume voxels: padding the in-volume part.  Only a constant pad with the volume mean does it
         for e in [e for e in it.events if e.kind == "call" and e.name == "numpy.pad"]:
